@@ -57,6 +57,7 @@ type Obligation struct {
 	Cover   bool // cover query: expected SAT
 	Result  *SolveResult
 	RawScript string // language obligations: a complete SMT-LIB script
+	CoverTags []string // antecedent covers: the tags of the clause guarded
 	SmallLen  int    // > 0: only counterexamples with sequence parameters up to this length are asked for
 	RawErr    string
 	Clause  *Clause // the contract clause behind an `ensures` obligation (for replay)
